@@ -73,6 +73,19 @@ def nets():
     S.add_simplex([1, 2, 3], idx=("t", 1))
     S.add_simplex([3, 4], idx=4)
     out.append(("SC-iterable-ids", S))
+    # a complex that is no longer downward closed (the inherited random_edge_shuffle moved nodes between two triangles): copy() and the
+    # constructor re-close it, so equality with the source is not demanded here (label suffix "!noeq") - but no id may be handed out twice
+    import random
+    st = random.getstate()
+    random.seed(0)
+    S = xgi.SimplicialComplex()
+    S.add_simplices_from([[1, 2, 3], [4, 5, 6]])
+    try:
+        S.random_edge_shuffle(0, 1)
+        out.append(("SC-not-closed!noeq", S))
+    except Exception:  # noqa
+        pass
+    random.setstate(st)
     return out
 
 
@@ -121,7 +134,8 @@ def main():
                 check(False, "%s raised" % how, label, repr(e))
                 continue
             s0 = state(H)
-            check(same(state(C), s0), "%s is equal to the source" % how, label, (state(C)["edges"], s0["edges"]))
+            if not (label.endswith("!noeq") and how != "pickle"):
+                check(same(state(C), s0), "%s is equal to the source" % how, label, (state(C)["edges"], s0["edges"]))
             check(type(C) is type(H) and not C.is_frozen, "%s has the same class and is editable" % how, label)
             # structural independence, both directions
             with warnings.catch_warnings():
